@@ -28,7 +28,7 @@ struct Plan {
 
 fn plan(prop: &str, tier: &str, scale: f64) -> Plan {
     let thorough = tier == "thorough";
-    let (s, l, n) = if thorough { (60_000u64, 1_600u64, 8usize) } else { (8_000, 200, 6) };
+    let (s, l, n) = if thorough { (1_200_000u64, 24_000u64, 8usize) } else { (100_000, 2_400, 7) };
     let mut p = Plan {
         w1_small: s,
         small_len: 80,
@@ -50,7 +50,7 @@ fn plan(prop: &str, tier: &str, scale: f64) -> Plan {
             };
         }
         "C07" => {
-            p.w2_n = if thorough { 6 } else { 5 };
+            p.w2_n = if thorough { 7 } else { 6 };
             p.w3 = if thorough {
                 vec![(1, 70_000, false), (4, 280_000, true), (5, 200_000, false)]
             } else {
@@ -60,7 +60,7 @@ fn plan(prop: &str, tier: &str, scale: f64) -> Plan {
         "C09" | "C10" | "C14" => {
             p.w1_small /= 4;
             p.w1_large /= 2;
-            p.w2_n = if thorough { 8 } else { 7 };
+            p.w2_n = if thorough { 9 } else { 7 };
         }
         "C08" | "C11" => {
             p.w1_small /= 2;
@@ -73,7 +73,7 @@ fn plan(prop: &str, tier: &str, scale: f64) -> Plan {
             p.w1_small = 0;
             p.w1_large = 0;
             p.w2_n = 0;
-            p.c13 = if thorough { 120_000 } else { 16_000 };
+            p.c13 = if thorough { 1_500_000 } else { 150_000 };
         }
         "C16" => {
             p.w1_small /= 2;
@@ -82,8 +82,8 @@ fn plan(prop: &str, tier: &str, scale: f64) -> Plan {
         }
         "C17" => {
             // observation battery: fixed size, independent of the tier
-            p.w1_small = 600;
-            p.w1_large = 12;
+            p.w1_small = 8000;
+            p.w1_large = 120;
             p.w2_n = 0;
         }
         _ => {}
@@ -334,6 +334,13 @@ fn main() {
                             let out = match prop {
                                 "C08" => run_w1::<Tok>(&ctx, &cfg, *idx, &mut cov, &mut NoHook),
                                 "C14" => run_w1::<Txt>(&ctx, &cfg, *idx, &mut cov, &mut pretty),
+                                "C17" => {
+                                    let mut b = ixv::special::BatteryHook::default();
+                                    let mut o = run_w1::<Plain>(&ctx, &cfg, *idx, &mut cov, &mut b);
+                                    o.digest.u(b.d.0);
+                                    o.digest.u(b.d.1);
+                                    o
+                                }
                                 #[cfg(feature = "deser")]
                                 "C16" => run_w1::<Plain>(&ctx, &cfg, *idx, &mut cov, &mut ixv::special::SerdeHook { shadows: Vec::new() }),
                                 _ => run_w1::<Plain>(&ctx, &cfg, *idx, &mut cov, &mut NoHook),
@@ -384,6 +391,20 @@ fn main() {
     let mut cov = Cov::default();
     for h in handles {
         cov.merge(h.join().expect("worker thread died"));
+    }
+    #[cfg(feature = "macros")]
+    if prop == "C17" {
+        match ixv::special::macro_battery() {
+            Ok(n) => cov.add("macro_battery_nodes_compared", n),
+            Err(e) => shared.violations.lock().unwrap().push(Violation {
+                prop: "C17".into(),
+                sig: "battery/macro-differs".into(),
+                detail: e,
+                workload: "macro-battery".into(),
+                step: 0,
+                ops: Vec::new(),
+            }),
+        }
     }
     let wall = t0.elapsed().as_secs_f64();
 
